@@ -17,6 +17,15 @@ CLAIMED = {
              "three refutation lemmas for the recorded finding F6; the positive taiko statement is not proved (partial). "
              "Float attributes are compared bitwise gradual-vs-one-shot on the implementation for every prefix.",
         tech="Coq simulation proof (gradual machine refines list iterator) + model/impl correspondence + bitwise differential"),
+    "C03": dict(
+        text="Coq theorems for every object list, every skill oracle, every performance oracle, every score state and every "
+             "sequence of next/nth(k)/last/len calls: a fresh osu!/catch/mania gradual performance calculator returns exactly "
+             "perf(one-shot(i), i, state) for the position i it reaches (min(n+1, remaining) objects processed, None iff nothing "
+             "remains) - i.e. what a one-shot Performance with passed_objects(i) and that state evaluates, the performance "
+             "function being the same oracle in both paths. Tied to the code by model/impl correspondence on counts, Some/None, "
+             "len and the passed_objects value, and by bitwise comparison of every gradual result with the one-shot Performance. "
+             "Taiko: model + correspondence only; findings F6a/F6b (partial).",
+        tech="Coq simulation proof (gradual performance refines one-shot performance of the prefix) + model/impl correspondence + bitwise differential"),
     "C11": dict(
         text="Coq theorems (unbounded op sequences) that the compact strain list refines a plain list, that transmute_into_vec's "
              "and from_raw_parts' contracts hold and that zero counts never overflow; model tied to src/util/strains_vec.rs by "
